@@ -9,7 +9,7 @@ mkdir -p "$SCRATCH/src"
 cp -r /repo/kafe2 "$SCRATCH/src/kafe2"
 find "$SCRATCH" -name __pycache__ -prune -exec rm -rf {} + 2>/dev/null
 if ! (cd "$SCRATCH/src" && patch -p1 -s --fuzz=3 < "$PATCH"); then echo "PATCH FAILED: $PATCH"; rm -rf "$SCRATCH"; exit 3; fi
-cd /verif
+cd "$(dirname "$(readlink -f "$0")")/.."
 KAFE2_SRC="$SCRATCH/src" ./check "$@" --no-evidence
 rc=$?
 rm -rf "$SCRATCH"
